@@ -461,6 +461,18 @@ pub fn jbig2_decode(data: &[u8], globals: &[u8]) -> Result<Vec<u8>> {
 }
 
 pub fn decode(data: &[u8], filter: &StreamFilter) -> Result<Vec<u8>> {
+    #[cfg(feature = "verif_hooks")]
+    {
+        let res = decode_inner(data, filter);
+        if let Ok(ref out) = res {
+            crate::verif::note_decoded(out.len());
+        }
+        return res;
+    }
+    #[cfg(not(feature = "verif_hooks"))]
+    decode_inner(data, filter)
+}
+fn decode_inner(data: &[u8], filter: &StreamFilter) -> Result<Vec<u8>> {
     match *filter {
         StreamFilter::ASCIIHexDecode => decode_hex(data),
         StreamFilter::ASCII85Decode => decode_85(data),
